@@ -988,9 +988,12 @@ def evaluate__codepoints_to_string(
 
     result = []
     value: Union[ta.ItemType, int]
-    for value in self[0].select(context):
+    for value in self[0].atomization(context):
         if isinstance(value, UntypedAtomic):
-            value = int(value)
+            try:
+                value = int(value)
+            except ValueError as err:
+                raise self.error('FORG0001', err) from None
 
         if not isinstance(value, int):
             msg = "invalid type {} for codepoint {}".format(type(value), value)
